@@ -439,11 +439,18 @@ func runCrashScenario(self string, id int, sc crashScenario, rng *rand.Rand) ([]
 	logb, _ := os.ReadFile(logf)
 	points := strings.Split(strings.TrimSpace(string(logb)), "\n")
 	if len(points) == 0 || points[0] == "" {
-		return nil, 0, fmt.Errorf("no crash points reached: hooks missing in fileStorage.Set?")
+		// the crash-point calls are gone (a rewritten Set): the syscall-level enumeration below stands alone
+		points = nil
+		if sc.Op == "transport" {
+			return nil, 0, nil // too many threads and syscalls for the syscall-level variant; Set and SaveEntity carry the verdict
+		}
+		if _, err := exec.LookPath("strace"); err != nil {
+			return nil, 0, fmt.Errorf("no crash points reached (hooks missing in fileStorage.Set) and no strace to fall back on")
+		}
 	}
 	var lines []J
 	kills := 0
-	for k := 1; k <= len(points)+1; k++ {
+	for k := 1; k <= len(points)+1 && points != nil; k++ {
 		dir := fmt.Sprintf("%s/run%d", base, k)
 		key, oldVal, newVal, valFile, err := prepare(dir)
 		if err != nil {
@@ -515,6 +522,128 @@ func runCrashScenario(self string, id int, sc crashScenario, rng *rand.Rand) ([]
 		}
 		o["others_ok"] = bytes.Equal(after["bystander"], []byte("untouched-value"))
 		// listing: nothing but the known keys may show up as an entity / key
+		extra := false
+		for kk := range after {
+			if kk != key && kk != "bystander" && strings.HasSuffix(kk, ".entity") {
+				extra = true
+			}
+		}
+		o["temp_listed"] = extra
+		lines = append(lines, o)
+	}
+	// hook-free variant: the child is killed by strace on entry to each file-system syscall of the operation, so that a
+	// rewritten Set whose crash points were lost is still crashed at every syscall boundary
+	if sc.Op != "transport" && os.Getenv("HCV_NO_STRACE") == "" {
+		sl, sk, err := straceCrashes(self, id, sc, base, prepare)
+		if err != nil {
+			return nil, 0, err
+		}
+		lines = append(lines, sl...)
+		kills += sk
+	}
+	return lines, kills, nil
+}
+
+var crashSyscalls = []string{"openat", "write", "pwrite64", "fsync", "fdatasync", "close", "rename", "renameat", "renameat2", "unlink", "unlinkat", "ftruncate", "link", "linkat"}
+
+// straceCrashes records the file-system syscalls the operation makes in the storage directory (main thread), then re-runs it
+// once per syscall with strace injecting SIGKILL on entry to exactly that invocation.
+func straceCrashes(self string, id int, sc crashScenario, base string, prepare func(string) (string, []byte, []byte, string, error)) ([]J, int, error) {
+	strace, err := exec.LookPath("strace")
+	if err != nil {
+		return nil, 0, nil // not available: the hook-based enumeration stands alone
+	}
+	recDir := base + "/srec"
+	key, _, _, valFile, err := prepare(recDir)
+	if err != nil {
+		return nil, 0, err
+	}
+	logf := base + "/strace.log"
+	cmd := exec.Command(strace, "-f", "-o", logf, "-e", "trace="+strings.Join(crashSyscalls, ","), self, "storagechild", "--extra", sc.Op+"|"+recDir+"|"+key+"|"+valFile)
+	cmd.Env = append(os.Environ(), "VERIF_CRASH_AT=0")
+	if out, err := cmd.CombinedOutput(); err != nil {
+		return nil, 0, fmt.Errorf("strace recording run failed: %v %s", err, out)
+	}
+	logb, err := os.ReadFile(logf)
+	if err != nil {
+		return nil, 0, err
+	}
+	// main thread = first pid in the log; count invocations per syscall; the window opens at the first call naming the directory
+	type inv struct {
+		name string
+		k    int
+	}
+	var window []inv
+	counts := map[string]int{}
+	mainPid := ""
+	open := false
+	for _, line := range strings.Split(string(logb), "\n") {
+		f := strings.Fields(line)
+		if len(f) < 2 {
+			continue
+		}
+		if mainPid == "" {
+			mainPid = f[0]
+		}
+		if f[0] != mainPid {
+			continue
+		}
+		rest := strings.TrimSpace(strings.TrimPrefix(line, f[0]))
+		p := strings.Index(rest, "(")
+		if p <= 0 || strings.HasPrefix(rest, "<...") || strings.HasPrefix(rest, "+++") || strings.HasPrefix(rest, "---") {
+			continue
+		}
+		name := rest[:p]
+		known := false
+		for _, c := range crashSyscalls {
+			if c == name {
+				known = true
+			}
+		}
+		if !known {
+			continue
+		}
+		counts[name]++
+		if !open && strings.Contains(rest, recDir+"/") {
+			open = true
+		}
+		if open {
+			window = append(window, inv{name, counts[name]})
+		}
+	}
+	if len(window) == 0 {
+		return nil, 0, fmt.Errorf("strace saw no file-system syscall in the storage directory")
+	}
+	var lines []J
+	kills := 0
+	for j, w := range window {
+		dir := fmt.Sprintf("%s/srun%d", base, j)
+		key, oldVal, newVal, valFile, err := prepare(dir)
+		if err != nil {
+			return nil, 0, err
+		}
+		cmd := exec.Command(strace, "-f", "-o", "/dev/null", "-e", "trace="+w.name, "-e", fmt.Sprintf("inject=%s:signal=SIGKILL:when=%d", w.name, w.k),
+			self, "storagechild", "--extra", sc.Op+"|"+dir+"|"+key+"|"+valFile)
+		cmd.Env = append(os.Environ(), "VERIF_CRASH_AT=0")
+		runErr := cmd.Run()
+		killed := runErr != nil
+		if killed {
+			kills++
+		}
+		after := readAll(dir)
+		o := J{"ev": "crash", "case": id, "i": 0, "op": sc.Op, "old": sc.Old, "new": sc.New, "point": fmt.Sprintf("sys:%s#%d", w.name, j+1), "k": j + 1, "key": "target", "killed": killed}
+		got, has := after[key]
+		switch {
+		case !has && sc.Old == "absent":
+			o["reads"] = "old"
+		case has && sc.Old != "absent" && bytes.Equal(got, oldVal) && !(bytes.Equal(oldVal, newVal)):
+			o["reads"] = "old"
+		case has && bytes.Equal(got, newVal):
+			o["reads"] = "new"
+		default:
+			o["reads"] = "other"
+		}
+		o["others_ok"] = bytes.Equal(after["bystander"], []byte("untouched-value"))
 		extra := false
 		for kk := range after {
 			if kk != key && kk != "bystander" && strings.HasSuffix(kk, ".entity") {
